@@ -468,7 +468,9 @@ func (g *Gen) mergeStates(es []edge, tag string) State {
 // run executes the body. Returns merged exit (reach, state, results).
 func (a *Act) run(reach string, st State, args []Val) {
 	g := a.g
-	a.entrySt = st.clone()
+	if a.entrySt == nil {
+		a.entrySt = st.clone()
+	}
 	for i, p := range a.fn.Params {
 		v := args[i]
 		if v.G == nil {
